@@ -171,9 +171,15 @@ Theorem C10_system_feasible_solok : forall pow32 eps t tol die mods areas cells 
   names_ok mods ->
   forallb cell_ok cells = true ->
   Feasible tol sys asg ->
-  SolOK eps (sys_tol tol mods) t die mods cells (sol_of eps t mods cells asg).
+  SolOK eps (sys_tol tol mods) t die mods cells (sol_of_asg eps t mods cells asg).
 Proof. exact feasible_solok. Qed.
 Print Assumptions C10_system_feasible_solok.
+
+(* the correspondence files evaluate the generator with the rows of model.a tabulated once: the same system *)
+Theorem C10_fast_generator_same : forall pow32 eps t die mods areas cells edges,
+  gen_system_fast pow32 eps t die mods areas cells edges = gen_system pow32 eps t die mods areas cells edges.
+Proof. exact gen_system_fast_same. Qed.
+Print Assumptions C10_fast_generator_same.
 
 (* the internal names f"{m}_{r}" never collide with each other, whatever the module names *)
 Theorem C10_fake_names_injective : forall m r m' r', fake m r = fake m' r' -> m = m' /\ r = r'.
@@ -218,7 +224,7 @@ Theorem C10_capacity_equations_needed : exists sys,
   Forall (fun c => exists k, c = cap_con C10SysExample.eps C10SysExample.t C10SysExample.mods C10SysExample.cells k)
          (firstn (List.length C10SysExample.cells) (scons sys)) /\
   Feasible C10SysExample.tol (C10SysExample.drop_caps sys) C10SysExample.asg_bad /\
-  Qcsum (map (fun m => sa (sol_of C10SysExample.eps C10SysExample.t C10SysExample.mods C10SysExample.cells
+  Qcsum (map (fun m => sa (sol_of_asg C10SysExample.eps C10SysExample.t C10SysExample.mods C10SysExample.cells
                                    C10SysExample.asg_bad) (mname m) 2) C10SysExample.mods) = qc 2 1.
 Proof. exact C10SysExample.capacity_equations_needed. Qed.
 Print Assumptions C10_capacity_equations_needed.
